@@ -44,6 +44,13 @@ type Actor struct {
 	// contracts deployed by this actor (lockup forwarders)
 	Contracts []common.Address
 
+	// workshares this actor mined and handed to the zone worker
+	Shares   []*types.WorkObjectHeader
+	// when set, Qi->Quai conversions are addressed to these accounts only (accounts that nothing
+	// else ever pays or charges, so that their balance is exactly the conversions credited)
+	ConvRecipients []common.Address
+	NoShares bool // MineRandom mines no workshares
+
 	// zone height at which each Qi-transaction output seen in this actor's blocks was created
 	created map[types.OutPoint]uint64
 }
@@ -124,6 +131,12 @@ func (a *Actor) MineOne(o MineOpts) (*Block, error) {
 }
 
 func (a *Actor) classify(b *Block) {
+	if n := len(b.Zone().Uncles()); n > 0 {
+		a.label("blk_with_uncles")
+		if n > 1 {
+			a.label("blk_with_multiple_uncles")
+		}
+	}
 	for _, tx := range b.Zone().Transactions() {
 		switch tx.Type() {
 		case types.QuaiTxType:
@@ -364,6 +377,9 @@ func (a *Actor) submit(t *rapid.T, kind string) {
 		case "qi2quai":
 			// all conversion outputs go to one Quai address; data = 2-byte slip + Qi refund address
 			to := a.quai[rapid.IntRange(0, nQuaiKeys-1).Draw(t, "toquai")].Addr
+			if len(a.ConvRecipients) > 0 {
+				to = a.ConvRecipients[rapid.IntRange(0, len(a.ConvRecipients)-1).Draw(t, "toconv")]
+			}
 			outs = append(outs, QiOut{Denomination: dens[0], To: to})
 			for _, d := range dens[1:] {
 				outs = append(outs, QiOut{Denomination: d, To: a.freshQi().Addr})
@@ -535,6 +551,13 @@ func (a *Actor) MineRandom(t *rapid.T) (*Block, error) {
 // MineRandomOrder is MineRandom with the block order fixed when order >= 0.
 func (a *Actor) MineRandomOrder(t *rapid.T, order int) (*Block, error) {
 	o := a.DrawMineOpts(t, order)
+	if !a.NoShares && a.ZoneNumber() >= 3 {
+		for k := rapid.SampledFrom([]int{0, 0, 0, 0, 1, 1, 2, 3}).Draw(t, "nShares"); k > 0; k-- {
+			if _, err := a.WorkShare(t); err != nil {
+				return nil, err
+			}
+		}
+	}
 	if a.ZoneNumber() > params.TimeToStartTx+1 && rapid.IntRange(0, 3).Draw(t, "customMiner") == 0 {
 		return a.MineChained(t, o)
 	}
